@@ -10,6 +10,8 @@ def signature(msg, case_lines):
     kind = m.group(1) if m else "?"
     hdr = case_lines[0] if case_lines else ""
     d = re.search(r"dual=(\d)", msg.split(" ev=[")[0]) or re.search(r"dual=(\d)", hdr)
+    if kind == "af-optimistic-level-eq-depth-before-first-push-edge":   # known corner, one signature for all variants
+        return "kind:" + kind
     if kind == "gray-roundtrip" or kind.startswith("array-") or kind.startswith("trans-"):
         return "kind:" + kind
     return "kind:%s;dual:%s" % (kind, d.group(1) if d else "?")
@@ -51,5 +53,6 @@ vlib.standard_check({
                     "vendor FIFO primitives (scl/arch/xilinx/FifoPattern.cpp) and technology-mapped memories are outside the model (no target device is set in the harness)",
                     "dual-clock TransactionalFifo (generateCDCReqAck) and storeForwardFifo are not covered; FifoArray with more than 64 data words (needs a user-supplied retimable output register) is not exercised",
                     "requested latency 0 (Specific(0)/AtMost(0)) is excluded: Fifo::generate then loops over Range(0-1) registers",
-                    "requests are held low while a reset is asserted; all flag / level / size outputs (full, empty, almostFull, almostEmpty, sizes, valid) are checked against the (empty) queue from power-on, in reset cycles and in the first cycle after release; until the almost-full register has seen a non-reset push edge the harness applies levels < depth only (level == depth, for which the indication is constantly true by definition, is not matched by the reset value 0: C15_AF_LEVEL_N_AT_RESET=1 reproduces that one-cycle deviation)", "metastability is outside gatery's simulator and outside the model"],
+                    "requests are held low while a reset is asserted; all flag / level / size outputs (full, empty, almostFull, almostEmpty, sizes, valid) are checked against the (empty) queue from power-on, in reset cycles and in the first cycle after release, with unrestricted levels (almostFull(level == depth) before the first non-reset push edge has its own PROPFAIL kind: known finding)",
+                    "metastability is outside gatery's simulator and outside the model"],
 })
